@@ -478,7 +478,7 @@ func fuzzSite(stack string) string {
 	for _, l := range strings.Split(stack, "\n") {
 		if strings.HasPrefix(l, "github.com/bloxapp/") && !strings.Contains(l, "zz_verif") {
 			f := l
-			if i := strings.Index(f, "("); i > 0 {
+			if i := strings.LastIndex(f, "("); i > 0 {
 				f = f[:i]
 			}
 			return strings.TrimPrefix(strings.TrimPrefix(f, "github.com/bloxapp/ssv/"), "github.com/bloxapp/")
